@@ -452,6 +452,7 @@ func (t *Teamserver) Start() {
 
 			HandlerData.PipeName = Data["PipeName"].(string)
 			HandlerData.KillDate = storedKillDate(listener["Config"])
+			HandlerData.WorkingHours, _ = Data["WorkingHours"].(string)
 
 			if err := t.ListenerStart(handlers.LISTENER_PIVOT_SMB, HandlerData); err != nil && err.Error() != "listener already exists" {
 				logger.SetStdOut(os.Stderr)
